@@ -8,7 +8,7 @@ TEXT = ("scope_errors_exact: a pair (s, c) is reported iff s is declared shared,
         "service is reachable, else shared); scope_keyword_mapping (keyword -> compiled scope -> emitted setter, regenerated template table); shared_once and "
         "contextual_once_per_bag over the runtime model. Build-time rule: all graphs over <= 3 services with every scope assignment (thorough) compared with the "
         "implementation and with an independent Python oracle. Run time: the runtime model and the probe are run on the same histories of Get/GetInContext (same "
-        "context, different contexts, none) and instance identity (serial numbers) is compared and judged directly.")
+        "context, different contexts, none) and instance identity (serial numbers) is compared and judged directly. The dependency notion is the documented one: graph_faithful (C07) relates the built graph to ConfigDep (own arguments incl. calls and fields, carriers of requested tags, dependencies of decorators of carried tags), scope_errors_exact and default_scope_documented are stated over it, and reachability needs no totality assumption (reach_total). Histories include the generated getters (a getter call is judged as the Get it stands for), arg-less decorated services and multi-file distributions.")
 TECHNIQUE = "Lean 4 theorem (exact characterisation of the scope validator through graph reachability) + exhaustive small graphs x scope assignments + runtime model vs probe on Get/GetInContext histories"
 LEAN_PROPS = ["C05"]
 TRUSTED = ["gontainer-helpers/v3 scope resolution and caches are modelled (Model/Runtime.lean), tied by level B", "graph_faithful (model graph = documented relation): checked against the Python oracle"]
@@ -111,6 +111,10 @@ def history_cfg(rng):
             del svcs["rq"]["scope"]
         svcs["h"] = {"constructor": "fx.NewC", "tags": ["dt"], "getter": "GetH"}
         cfg["decorators"] = [{"tag": "dt", "decorator": "fx.Dec1", "arguments": ["@rq"]}]
+    if rng.random() < 0.5:
+        # services created from a VALUE expression are evaluated per construction as well: with a non-shared scope every
+        # context / Get sees a fresh object, whose call log therefore shows exactly its own call
+        svcs["vv"] = {"value": "&fx.Obj{}", "scope": rng.choice(["contextual", "non_shared"]), "calls": [["Call1", ["v"]]], "fields": {"F1": "f"}}
     gen._repair_scopes(cfg)
     return cfg
 
@@ -178,9 +182,17 @@ def judge_history(cfg, ops, results):
             else:
                 # non_shared: occurrences that are distinct objects in the tree must have distinct serials per injection:
                 pass
+    # value-created services with a non-shared scope: a fresh object per context / Get (exactly one own call in its log)
+    if "vv" in cfg["services"]:
+        seen_ctx = {}
+        for idx, (op, r) in enumerate(zip(ops, results)):
+            if op[0] in ("get", "getctx") and op[-1] == "vv" and "ok" in r:
+                n_ = len(r["ok"].get("log", []))
+                if n_ != 1:
+                    return "value-created service 'vv' (%s): the object returned by op %d %r carries %d calls — the value expression is not evaluated per construction" % (cfg["services"]["vv"]["scope"], idx, op, n_)
     # non_shared: a fresh instance for every Get
     for n in cfg["services"]:
-        if resolved(cfg, n) == "non_shared":
+        if resolved(cfg, n) == "non_shared" and n != "vv":       # vv is anonymous (serial 0): judged by its call log above
             tops = [r["ok"]["serial"] for op, r in zip(ops, results) if op[0] in ("get", "getctx") and op[-1] == n and "ok" in r]
             if len(set(tops)) != len(tops):
                 return "non_shared service %r returned the same instance for two Gets: %r" % (n, tops)
